@@ -44,8 +44,16 @@ type byteReader struct {
 
 func (r *byteReader) ReadByte() (byte, error) {
 	var buff = [1]byte{}
-	_, err := r.Read(buff[:])
-	return buff[0], err
+	for {
+		n, err := r.Read(buff[:])
+		if n > 0 {
+			// the byte is valid even when it arrives together with an error (io.EOF)
+			return buff[0], nil
+		}
+		if nil != err {
+			return 0, err
+		}
+	}
 }
 
 // ExactReader returns a Reader that reads exactly n bytes from r.
